@@ -146,6 +146,13 @@ def calls(C):
         add(f"p2d({c1},config={c})", lambda c=c: path_to_dict(P[c1], config=c), group=f"p2d-{c1}-{c}")
         add(f"p2d({c1},None,{c})", lambda c=c: path_to_dict(P[c1], None, c), group=f"p2d-{c1}-{c}")
     add(f"p2d({c2},config={c2})", lambda: path_to_dict(P[c2], config=c2))
+    # the type argument of path_to_dict, in every spelling (the entries of one group must agree, whichever came first)
+    LT = ref.natural(LEAF)[0]
+    add("p2d(P,T)", lambda: path_to_dict(P[c1], LT), group="p2d-typed")
+    add("p2d(P,_type=T)", lambda: path_to_dict(P[c1], _type=LT), group="p2d-typed")
+    add("p2d(P,T,c1)", lambda: path_to_dict(P[c1], LT, c1), group="p2d-typed")
+    add("p2d(P,_type=T,config=c1)", lambda: path_to_dict(P[c1], _type=LT, config=c1), group="p2d-typed")
+    add("p2d(Path(P),T)", lambda: path_to_dict(__import__("pathlib").Path(P[c1]), LT), group="p2d-typed")
     add("unf(U)", lambda: unfold_search(U), group="unf-default")
     # every way to bind the two flags of unfold_search (same value on different parameters, positional / keyword / mixed)
     for u in (None, False, True):
